@@ -34,10 +34,13 @@ const (
 	opRand
 	opOnce
 	opWGWait
+	opTimer
+	opCondWait
+	opCondSignal
 )
 
 var opNames = [...]string{"none", "start", "yield", "lock", "rlock", "unlock", "send", "recv", "select", "close", "atomic",
-	"sleep", "read", "write", "netclose", "choose", "cancel", "newctx", "join", "dial", "rand", "once", "wgwait"}
+	"sleep", "read", "write", "netclose", "choose", "cancel", "newctx", "join", "dial", "rand", "once", "wgwait", "timer", "condwait", "condsignal"}
 
 func (k opKind) String() string { return opNames[k] }
 
@@ -82,6 +85,7 @@ const (
 	noteTryRLocked
 	noteOnceDone
 	noteWGAdd
+	noteCondWait
 )
 
 type note struct {
@@ -421,6 +425,13 @@ func (s *Sim) grantable(t *Task) bool {
 		return os.done || os.running == nil || os.running == t
 	case opWGWait:
 		return s.wgs[r.obj] <= 0
+	case opCondWait:
+		for _, w := range r.keep.(*Cond).waiters {
+			if w.t == t {
+				return w.signalled
+			}
+		}
+		return true // not registered (cannot happen): do not hang
 	case opJoin:
 		for _, c := range r.join {
 			if c.state != stDone && c.state != stCrashed {
@@ -474,6 +485,40 @@ func (s *Sim) grant(t *Task) string {
 		os.running = t
 		t.resp.idx = 1
 		return "run"
+	case opTimer:
+		return s.timerRequest(t)
+	case opCondWait:
+		c := r.keep.(*Cond)
+		for i, w := range c.waiters {
+			if w.t == t {
+				c.waiters = append(c.waiters[:i], c.waiters[i+1:]...)
+				break
+			}
+		}
+		return "woken"
+	case opCondSignal:
+		c := r.keep.(*Cond)
+		var idle []*condWaiter
+		for _, w := range c.waiters {
+			if !w.signalled {
+				idle = append(idle, w)
+			}
+		}
+		if len(idle) == 0 {
+			return "no waiter"
+		}
+		if r.n == 0 {
+			for _, w := range idle {
+				w.signalled = true
+			}
+			return fmt.Sprintf("broadcast to %d", len(idle))
+		}
+		k := 0
+		if len(idle) > 1 {
+			k = s.choose(len(idle), nil)
+		}
+		idle[k].signalled = true
+		return "signal " + idle[k].t.name
 	case opChoose:
 		t.resp.idx = s.choose(r.n, nil)
 		return fmt.Sprintf("%d/%d", t.resp.idx, r.n)
@@ -523,6 +568,9 @@ func (s *Sim) applyNote(t *Task, n *note) {
 		os.done, os.running = true, nil
 	case noteWGAdd:
 		s.wgs[n.obj] += n.n
+	case noteCondWait:
+		c := n.keep.(*Cond)
+		c.waiters = append(c.waiters, &condWaiter{t: t})
 	case noteClosed:
 		s.closed[n.obj] = n.keep
 	case noteSpawn:
